@@ -534,7 +534,7 @@ def main(argv=None):
 
             runs = max(1, int(runs * a.scale))
             fb, fs = fz.run_campaign(a.prop, prop, ti, t, src, seed, runs, procs=8 if tier == "thorough" else 4,
-                                     timeout=overall)
+                                     timeout=min(overall, float(os.environ.get("VERIF_FUZZ_TIMEOUT", "900"))))
             fuzz_stats[t.name] = fs
             fc = Collector()
             fc.evals = fs.get("evals", 0)
